@@ -480,3 +480,14 @@ for _tier in ("quick", "thorough"):
                     _base["quick"] = {k: min(v, _req.get(k, v)) for k, v in _base.get("quick", {}).items()}
                 else:
                     _base["thorough"] = _req
+
+# Counters that depend on how the operating system schedules threads (how many calls actually overlapped) must not turn
+# a loaded machine into an INCONCLUSIVE verdict: keep their minima far below anything seen, in every tier.
+_SCHEDULING = {"overlapping_call_pairs": 100, "max_distinct_overlapping_kind_pairs": 2}
+for _c in CHECKS.values():
+    for _t in ("quick", "thorough"):
+        _r = _c.get("require", {}).get(_t, {})
+        for _k, _cap in _SCHEDULING.items():
+            if _k in _r:
+                _r[_k] = min(_r[_k], _cap)
+
